@@ -201,6 +201,7 @@ def run_c11(tier):
             rej = [t for t, c in items if not c["ok"]][:2]
             samples.append({"position": pos, "in_language": acc, "not_in_language": rej})
         n_multi = multi_defects(v, pool, wd, rng, tier)
+        n_kinds = node_kinds(v, pool, wd, rng, tier)
     finally:
         pool.close()
     shutil.rmtree(wd, ignore_errors=True)
@@ -210,10 +211,11 @@ def run_c11(tier):
     core.write_evidence(pid, tier, "model_checking", {
         "states": tot_states, "transitions": tot_gen, "traces_validated_against_impl": n_cand,
         "samples": samples[:4],
-        "evaluations": n_cand + n_multi, "distinct_nontrivial": n_reject_model + n_multi,
+        "evaluations": n_cand + n_multi + n_kinds, "distinct_nontrivial": n_reject_model + n_multi + n_kinds, "wrong_node_kind_configurations": n_kinds,
         "rule": "per grammar position every symbol string up to the bound of MC_Grammar_<position>_%s.cfg, instantiated and placed in each YAML "
                 "site of the position (%d sites); non-trivial = outside the documented language (must be flagged, naming the key); "
-                "plus every subset of up to 3 of the structural defect kinds on different keys (all must be reported) and the todo exemption" % (tier, len(SITES)),
+                "plus every subset of up to 3 of the structural defect kinds on different keys (all must be reported), the todo exemption, and "
+                "every node of a complete base document replaced by a YAML node of an incompatible kind (MC_Confusion: must be rejected)" % (tier, len(SITES)),
         "exhaustive": True, "sites": stats, "multi_defect_configurations": n_multi,
         "known_findings_hit": {k: n for k, (f, n) in v.known_hit.items()},
     }, time.time() - t0, violations=len(v.violations), assumptions=[
@@ -221,6 +223,37 @@ def run_c11(tier):
         "the three single-valued meta positions are sampled, all other sites are exhaustive within the bound",
         "reserved / Must-prefixed / InContext-suffixed / duplicate getters are decided by the API family (C13)"])
     return rc
+
+
+# --------------------------------------------------------------------------- wrong YAML node kinds
+
+def node_kinds(v, pool, wd, rng, tier):
+    """MC_Confusion: every node of a complete base document replaced by every YAML node kind; where the specification says the
+    replacement cannot be a configuration (collection vs scalar vs the other collection) the tool must reject it"""
+    from . import totality
+    r = totality.confusion_cases(tier)
+    pos_list = totality.positions(totality.BASE_DOC)
+    def nested(c):       # a pair where one position lies below the other is not two independent replacements
+        ps = [pos_list[s_["p"] - 1] for s_ in c["subs"]]
+        return any(a != b and a == b[:len(a)] for a in ps for b in ps)
+    cases = [c for c in r.emitted if c["reject"] and not nested(c)]
+    jobs = []
+    for i, c in enumerate(cases):
+        subs = [(pos_list[s_["p"] - 1], s_["k"]) for s_ in c["subs"]]
+        d = os.path.join(wd, "k%05d" % i)
+        os.makedirs(d)
+        with open(os.path.join(d, "in.yaml"), "w") as f:
+            f.write(totality.confusion_yaml(subs, rng))
+        jobs.append({"id": i, "dir": d, "args": ["-i", "in.yaml", "-o", "out.go"], "version": "1.0.0", "buildinfo": "verif", "out": "out.go"})
+    res = pool.run_all(jobs)
+    for c, j, rs in zip(cases, jobs, res):
+        if rs["exit"] == 0:
+            v.disagree("wrong-node-kind-accepted", {"subs": [(list(pos_list[s_["p"] - 1]), s_["k"]) for s_ in c["subs"]],
+                                                   "yaml": open(os.path.join(j["dir"], "in.yaml")).read()[:1500]}, {"exit": 0},
+                       tags={"kinds": sorted(s_["k"] for s_ in c["subs"])})
+        elif rs["exit"] != 1:
+            v.disagree("abnormal-exit", {"subs": c["subs"]}, {"exit": rs["exit"], "panic": rs.get("panic", "")[:300]})
+    return len(cases)
 
 
 # --------------------------------------------------------------------------- simultaneous defects
